@@ -329,13 +329,15 @@ Definition hdr (s : bytes) : bytes := CH_DOLLAR :: dec (lenN s) ++ crlf.      (*
 Definition decZ (z : Z) : bytes := if z <? 0 then CH_MINUS :: dec (Z.to_N (- z)) else dec (Z.to_N z).
 
 (* GetValueOffset of the result data *)
+(* bounded since /repo 22baf83: an offset beyond the frame is clamped to the frame length *)
 Definition value_offset (dflag : N) (d : bytes) : option Z :=
   if negb (N.land dflag 16 =? 0)%N then
+    if lenZ d <? 8 then Some (lenZ d) else
     match nthZ d 6, nthZ d 7 with
-    | Some a, Some b => Some (Z.of_N a + 256 * Z.of_N b + 8)
+    | Some a, Some b => if lenZ d <? Z.of_N a + 256 * Z.of_N b + 8 then Some (lenZ d) else Some (Z.of_N a + 256 * Z.of_N b + 8)
     | _, _ => None
     end
-  else Some 6.
+  else if lenZ d <? 6 then Some (lenZ d) else Some 6.
 
 (* ERROR_MSG is a run parameter (read from the tree under test): indexing it out of range is a Panic.
    Returns the bytes written to the stream; array / KV valued data are not modelled (None' = NotModelled). *)
